@@ -201,6 +201,7 @@ def _callee_targets(prog, c):
         for cc in calls:
             if cc.body is c.body and cc.bb == c.bb:
                 out.append(cu)
+    out += [tu for tu in getattr(prog, 'generic_cb_targets', {}).get((c.body.id, c.bb), []) if tu in prog.by_id]
     return out
 
 
